@@ -286,8 +286,9 @@ def r_als(ctx, rng, Y, n, fam):
     d = len(n)
     for kind in ('zero', 'constant', 'repeated', 'random'):
         I, y = training(rng, n, kind)
-        Z = teneva.als(I, y, Y, nswp=2, e=None, lamb=1e-3, info={})
-        wf(ctx, 'als', Z, n, f'als[{fam} start, {kind} data]')
+        lamb = float(rng.choice([1e-3, 0.0, 1.]))
+        Z = teneva.als(I, y, Y, nswp=2, e=None, lamb=lamb, info={})
+        wf(ctx, 'als', Z, n, f'als[{fam} start, {kind} data, lamb={lamb}]')
         ctx.nontrivial(['als', fam, kind, d])
         if d >= 3:
             rcap = max(max(ref.ranks_of(Y)), 2)
@@ -325,8 +326,22 @@ def r_als_func(ctx, rng, fam):
 def r_anova(ctx, rng, Y, n, fam):
     import teneva
     d = len(n)
-    for kind in ('zero', 'constant', 'repeated', 'random'):
-        I, y = training(rng, n, kind)
+    for kind in ('zero', 'constant', 'repeated', 'random', 'single-point',
+            'gaps'):
+        I, y = training(rng, n, 'random' if kind in ('single-point', 'gaps')
+            else kind)
+        nn = n
+        if kind == 'single-point':      # every sample at one multi-index
+            I[:] = I[int(rng.integers(len(I)))]
+            nn = [1] * d
+        elif kind == 'gaps':            # an index below the maximum never sampled
+            k = int(np.argmax(n))
+            if n[k] >= 3:
+                gap = int(rng.integers(0, n[k] - 1))
+                keep = I[:, k] != gap
+                I, y = I[keep], y[keep]
+                nn = [len(np.unique(I[:, j])) for j in range(d)]
+        n_save, n = n, nn
         if fam not in ('generic', 'all-modes-1') and kind == 'random':
             y = np.asarray(ref.dense_ld(Y), dtype=float)[tuple(I.T)]
         for order, noise, r in [(1, 0., 2), (1, 1e-10, 3), (2, 0., 3),
@@ -335,6 +350,7 @@ def r_anova(ctx, rng, Y, n, fam):
             wf(ctx, 'anova', Z, n, f'anova[{fam}, {kind} data, order={order}, '
                 f'noise={noise}, r={r}]')
             ctx.nontrivial(['anova', fam, kind, order, noise > 0, d])
+        n = n_save
 
 
 def r_anova_func(ctx, rng, fam):
